@@ -110,17 +110,21 @@ Fixpoint reach_apps (t : qtree) : list N :=
 Definition P_reach (tpre tpost : qtree) : bool := forallb (fun a => memN a (reach_apps tpost)) (reach_apps tpre).
 Fixpoint conf_nodes (c : conf_tree) : list conf_tree :=
   match c with CT id par mx gu ma pr kids => CT id par mx gu ma pr kids :: flat_map conf_nodes kids end.
-(* window of finding 19: every application that became unreachable sits in a queue that was a leaf and that
-   the new configuration defines as a parent (parent flag or configured children) *)
-Definition window19 (c : conf_tree) (tpre tpost : qtree) : bool :=
-  forallb (fun a => existsb (fun x => m_leaf x && memN a (l_apps (m_ledger x)) &&
-                                      existsb (fun c' => (ct_id c' =? m_id x) && negb (ct_leaf c')) (conf_nodes c))
-                            (flatten tpre))
-          (filter (fun a => negb (memN a (reach_apps tpost))) (reach_apps tpre)).
-(* window of the converse change (new finding 19b): a parent whose children hold applications is defined as a
-   leaf by the new configuration *)
-Definition window19b (c : conf_tree) (tpre tpost : qtree) : bool :=
-  existsb (fun x => negb (m_leaf x) && existsb (fun c' => (ct_id c' =? m_id x) && ct_leaf c') (conf_nodes c)) (flatten tpre).
+(* the applications that became unreachable *)
+Definition lost_apps (tpre tpost : qtree) : list N := filter (fun a => negb (memN a (reach_apps tpost))) (reach_apps tpre).
+(* window of finding 19: the application sits in a queue that was a leaf and that the new configuration defines as a
+   parent (parent flag or configured children) *)
+Definition in_window19 (c : conf_tree) (tpre : qtree) (a : N) : bool :=
+  existsb (fun x => m_leaf x && memN a (l_apps (m_ledger x)) &&
+                    existsb (fun c' => (ct_id c' =? m_id x) && negb (ct_leaf c')) (conf_nodes c)) (flatten tpre).
+Definition window19 (c : conf_tree) (tpre tpost : qtree) : bool := forallb (in_window19 c tpre) (lost_apps tpre tpost).
+(* window of the converse change (finding 19b): the application sits below a queue that was a parent and that the new
+   configuration defines as a leaf *)
+Fixpoint subtrees (t : qtree) : list qtree := match t with QT q kids => QT q kids :: flat_map subtrees kids end.
+Definition in_window19b (c : conf_tree) (tpre : qtree) (a : N) : bool :=
+  existsb (fun s => negb (m_leaf (troot s)) && memN a (reach_apps s) &&
+                    existsb (fun c' => (ct_id c' =? qid s) && ct_leaf c') (conf_nodes c)) (subtrees tpre).
+Definition window19b (c : conf_tree) (tpre tpost : qtree) : bool := forallb (in_window19b c tpre) (lost_apps tpre tpost).
 
 (* same set of records *)
 Definition set_eqb (a b : list mq) : bool :=
